@@ -44,7 +44,34 @@ void mt_stat(const char * key, long v) {
   if (stats_len < sizeof stats_buf - 64)
     stats_len += (size_t)snprintf(stats_buf + stats_len, sizeof stats_buf - stats_len, " %s=%ld", key, v);
 }
-void mt_known(const char * id) { snprintf(known_buf, sizeof known_buf, "%s", id); }
+void mt_known(const char * id) { if (!strstr(known_buf, id)) { size_t l = strlen(known_buf); snprintf(known_buf + l, sizeof known_buf - l, "%s%s", l ? "," : "", id); } }
+
+static size_t emit_text(char * out, size_t n) {
+  /* textual case: each line prefixed with "T " */
+  const char * p = desc_buf;
+  while (*p) {
+    const char * e = strchr(p, '\n');
+    size_t l = e ? (size_t)(e - p) : strlen(p);
+    memcpy(out + n, "T ", 2); n += 2;
+    memcpy(out + n, p, l); n += l;
+    out[n++] = '\n';
+    if (!e) break;
+    p = e + 1;
+  }
+  return n;
+}
+
+/* called once the case is decoded and before it is executed: if the child then dies (crash,
+   sanitizer abort, library exit()) the parent still knows which case it was */
+static int early_flushed;
+void mt_flush_early(void) {
+  char * out = malloc(desc_len * 2 + 256);
+  size_t n = (size_t)sprintf(out, "H %016llx\n", (unsigned long long)case_hash);
+  n = emit_text(out, n);
+  if (write(mv_result_fd, out, n) < 0) { }
+  free(out);
+  early_flushed = 1; desc_len = 0; desc_buf[0] = 0;
+}
 
 static void emit_report(int code, const char * msg) {
   (void)msg;
@@ -58,19 +85,7 @@ static void emit_report(int code, const char * msg) {
   }
   if (stats_len) n += (size_t)sprintf(out + n, "X%s\n", stats_buf);
   if (known_buf[0]) n += (size_t)sprintf(out + n, "K %s\n", known_buf);
-  if (want_text || (code != MVV_OK && code != MVV_REJECT)) {
-    /* textual case: each line prefixed with "T " */
-    const char * p = desc_buf;
-    while (*p) {
-      const char * e = strchr(p, '\n');
-      size_t l = e ? (size_t)(e - p) : strlen(p);
-      memcpy(out + n, "T ", 2); n += 2;
-      memcpy(out + n, p, l); n += l;
-      out[n++] = '\n';
-      if (!e) break;
-      p = e + 1;
-    }
-  }
+  n = emit_text(out, n);
   if (write(mv_result_fd, out, n) < 0) { }
 }
 
@@ -157,7 +172,7 @@ static size_t run_case(const uint8_t * blob, size_t n, char * rep, size_t cap, d
   for (int i = 0; i < 2; i++) if (pf[i].fd >= 0) close(pf[i].fd);
   int st = 0; waitpid(pid, &st, 0);
   rep[rn] = 0;
-  int has_v = (rn >= 2 && rep[0] == 'V' && rep[1] == ' ');
+  int has_v = (rn >= 2 && rep[0] == 'V' && rep[1] == ' ') || strstr(rep, "\nV ") != 0;
   if (!has_v) {
     /* no verdict line: crash, sanitizer abort, library exit(), or timeout */
     char head[512];
@@ -217,7 +232,7 @@ int main(int argc, char ** argv) {
     if (argc >= 4 && !strcmp(argv[3], "-t") && n > 5) blob[5] |= 1;
     size_t rn = run_case(blob, n, rep, sizeof rep, timeout_s);
     fwrite(rep, 1, rn, stdout);
-    int code = -1; sscanf(rep, "V %d", &code);
+    int code = -1; { const char * v = (rep[0] == 'V' && rep[1] == ' ') ? rep : strstr(rep, "\nV "); if (v) sscanf(v + (v == rep ? 0 : 1), "V %d", &code); }
     return (code == MVV_OK || code == MVV_REJECT || code == MVV_INCONCLUSIVE) ? 0 : 1;
   }
   fprintf(stderr, "usage: runner --server | --replay FILE [-t]\n");
